@@ -542,7 +542,7 @@ int main(int argc, char **argv) {
   { Search<0> s(H, prop, 3, 2); s.run(nthreads, lv); }
   { Search<2> s(H, prop, 3, 2); s.run(nthreads, lv); }
   if (th) {
-    long lv2 = H.args.count("levels2") ? atol(H.args["levels2"].c_str()) : 6;
+    long lv2 = H.args.count("levels2") ? atol(H.args["levels2"].c_str()) : 7;
     { Search<0> s(H, prop, 4, 3); s.run(nthreads, lv2); }
     { Search<2> s(H, prop, 4, 3); s.run(nthreads, lv2); }
   }
